@@ -2,6 +2,12 @@
 """Adds the 'needs' text to seeded/*/meta.json (from the table below) and regenerates seeded/README.md."""
 import json, os, glob
 NEEDS = {
+ 'C01b-hunkless-deletion-keeps-file': 'git dialect, a hunk-less "deleted file mode" entry on an existing zero-length file, forward: success reported, the empty file stays',
+ 'C02b-offset-accumulated': 'one file patch with at least three hunks, two earlier hunks applied at different non-zero offsets, and a later hunk whose old side matches at several positions',
+ 'C04b-rename-undone-into-old-name': 'a rename that is rolled back where the patched name is not the patch\'s old name: a reversed (-R) rename in a failing patch, or a forward rename of an already renamed file',
+ 'C05b-bypassed-reject-skips-rollback': 'an earlier patch of the same push creates a file in a directory that does not exist on disk yet, a later patch fails partially on it (reject cannot be created, bypass path)',
+ 'C06b-union-reparents-member': 'a name X first, later a pair (A,B) that puts B below A, later a pair (Y,B) with Y in X\'s component: a rename chain is split over two workers (--threads >= 2)',
+ 'C08b-backup-kept-if-exists': 'backups produced and a patch with two entries for one file (or rename A->B followed by an edit of B): the surviving backup is the state before the last entry, not before the patch',
  'C14-diagnostics-end-node-unclamped': 'a failing series without -q and a failing hunk whose closest match is at the end of the file while the hunk has more lines than the file has left: index out of bounds in the diagnostics, exit 101 before anything is saved',
  'C15-move-in-swaps-existed': 'a rename whose target was on disk at the start of the push (renamed away and back, rename onto an existing empty file, rollback of a failed patch with a rename, refused rename): the target is rewritten in place instead of being replaced',
  'C16-old-name-existed-at-start': 'a file patch with differing old/new names whose old name was on disk at the start and was deleted or renamed away by an earlier patch of the same invocation',
